@@ -26,6 +26,7 @@ type Engine struct {
 	mapInv    map[string]string
 	accCache  map[string][]accessorImpl
 	typeInv   map[string]string
+	guards    map[string]string // "pkg.Type.field" -> lock field name
 	broken    map[string]string // synthesised clause functions that no longer type-check
 	keySorts  *Sorts // only for typeKey computations that must be unit independent
 }
@@ -33,7 +34,7 @@ type Engine struct {
 func newEngine(l *Loaded) *Engine {
 	e := &Engine{L: l, contracts: map[string]*Contract{}, externs: map[string]*ExternContract{}, funcs: map[string]*ssa.Function{},
 		funcIDs: map[*ssa.Function]int{}, modsets: map[*ssa.Function]ModSet{}, modBusy: map[*ssa.Function]bool{}, wrap64: map[*ssa.Function]bool{},
-		keySorts: newSorts(), mapInv: map[string]string{}, accCache: map[string][]accessorImpl{}, typeInv: map[string]string{}}
+		keySorts: newSorts(), mapInv: map[string]string{}, accCache: map[string][]accessorImpl{}, typeInv: map[string]string{}, guards: map[string]string{}}
 	for _, sp := range l.SSA {
 		if sp == nil {
 			continue
